@@ -50,6 +50,57 @@ pub fn decode_strings(ctx: &Ctx, rng: &mut impl RngCore, nvalid: usize, nrand: u
     for v in [q - b(1), q.clone(), q + b(1), q + b(8), b(1) << 253, b(1) << 255, (b(1) << 256) - b(1), b(1), b(2), b(3), (b(1) << 253) - b(1), (q - b(1)) >> 1, (q + b(1)) >> 1] {
         out.push((to_le(&v, 32), "boundary"));
     }
+    // threshold-distance sweep around q: canonical values q - delta and aliases q + delta at every
+    // distance scale (about 1/7 of the even ones are valid encodings resp. aliases of valid ones)
+    for v in crate::zoo::threshold_sweep(q, 251, rng, 2) {
+        if v < top {
+            let class = if &v >= q { "q+delta" } else { "q-delta" };
+            out.push((to_le(&v, 32), class));
+            // make it even (non-negative) as well: s and s+q differ in parity, cover both
+            let e = if v.bit(0) { &v - b(1) } else { v.clone() };
+            out.push((to_le(&e, 32), class));
+        }
+    }
+    // engineered encodings: s for which the value handed to the square root inside the decoder has
+    // a chosen 2-primary component (table rows / early exits that uniform strings reach with
+    // probability 2^-39 or less). Even exponents give valid encodings, odd ones non-squares.
+    {
+        let sy = crate::c09::sylow(ctx);
+        let targets = crate::c09::structured_exponents(if ctx.tier_thorough { 1 } else { 4 });
+        let nthreads = crate::mon::workers();
+        let chunks: Vec<Vec<B>> = std::thread::scope(|sc| {
+            let hs: Vec<_> = (0..nthreads)
+                .map(|w| {
+                    let targets = &targets;
+                    let sy = &sy;
+                    sc.spawn(move || {
+                        let mut r = rng_for(ctx.seed, "engineered-decode", w, 0);
+                        let mut v = Vec::new();
+                        for (i, e) in targets.iter().enumerate() {
+                            if i % nthreads != w {
+                                continue;
+                            }
+                            for _try in 0..4 {
+                                let ss = crate::eng::decode_s_for_exponent(ctx, sy, e, &mut r);
+                                if !ss.is_empty() {
+                                    v.extend(ss);
+                                    break;
+                                }
+                            }
+                        }
+                        v
+                    })
+                })
+                .collect();
+            hs.into_iter().map(|h| h.join().expect("join")).collect()
+        });
+        for s in chunks.into_iter().flatten() {
+            out.push((to_le(&s, 32), "engineered-sqrt-exponent"));
+            if &(&s + q) < &top {
+                out.push((to_le(&(&s + q), 32), "alias s+kq"));
+            }
+        }
+    }
     for _ in 0..nrand {
         out.push((rand_bytes(rng, 32), "random"));
         let mut v = rand_bytes(rng, 32);
@@ -132,7 +183,7 @@ pub fn run_c01(ctx: &Ctx, rec: &mut Rec) {
     for cl in ["identity", "identity'", "G", "other-rep", "rescaled", "elligator", "random-decode", "kG", "program-register"] {
         rec.declare_class(&format!("fwd:{cl}"));
     }
-    for cl in ["valid", "alias s+kq", "q-s", "bit-flip", "boundary", "random", "produced-encoding"] {
+    for cl in ["valid", "alias s+kq", "q-s", "bit-flip", "boundary", "random", "produced-encoding", "engineered-sqrt-exponent", "q-delta"] {
         rec.declare_class(&format!("bwd:{cl}"));
     }
     // forward on the zoo (all presentations) and on program registers
@@ -257,7 +308,7 @@ pub fn run_c02(ctx: &Ctx, rec: &mut Rec) {
     for e in &eps {
         rec.declare_form(e.name);
     }
-    for cl in ["valid", "alias s+kq", "q-s", "bit-flip", "top-bits", "boundary", "random", "random-masked-even", "length"] {
+    for cl in ["valid", "alias s+kq", "q-s", "bit-flip", "top-bits", "boundary", "q+delta", "q-delta", "engineered-sqrt-exponent", "random", "random-masked-even", "length"] {
         rec.declare_class(cl);
     }
     let mut srng = rng_for(ctx.seed, P, 999, 0);
@@ -428,6 +479,33 @@ pub fn encoders() -> Vec<Encoder> {
         v.push(Encoder { name: "Element::serialize_compressed", f: |e| { let mut o = Vec::new(); e.serialize_compressed(&mut o).unwrap(); assert_eq!(e.compressed_size(), o.len()); o } });
         v.push(Encoder { name: "AffinePoint::serialize_compressed", f: |e| { let a = e.into_affine(); let mut o = Vec::new(); a.serialize_compressed(&mut o).unwrap(); assert_eq!(a.compressed_size(), o.len()); o } });
         v.push(Encoder { name: "Encoding::serialize_compressed", f: |e| { let mut o = Vec::new(); e.vartime_compress().serialize_compressed(&mut o).unwrap(); o } });
+        /// accepts at most 5 bytes per `write` call
+        struct Chunky(Vec<u8>);
+        impl ark_serialize::Write for Chunky {
+            fn write(&mut self, buf: &[u8]) -> ark_std::io::Result<usize> {
+                let n = buf.len().min(5);
+                self.0.extend_from_slice(&buf[..n]);
+                Ok(n)
+            }
+            fn flush(&mut self) -> ark_std::io::Result<()> {
+                Ok(())
+            }
+        }
+        v.push(Encoder { name: "Element::serialize_compressed (5-bytes-per-call writer)", f: |e| { let mut o = Chunky(Vec::new()); e.serialize_compressed(&mut o).unwrap(); o.0 } });
+        v.push(Encoder { name: "AffinePoint::serialize_compressed (5-bytes-per-call writer)", f: |e| { let mut o = Chunky(Vec::new()); e.into_affine().serialize_compressed(&mut o).unwrap(); o.0 } });
+        v.push(Encoder { name: "Encoding::serialize_compressed (5-bytes-per-call writer)", f: |e| { let mut o = Chunky(Vec::new()); e.vartime_compress().serialize_compressed(&mut o).unwrap(); o.0 } });
+        v.push(Encoder { name: "Element::serialize_compressed (into [u8;32] slice)", f: |e| { let mut o = [0xaau8; 32]; e.serialize_compressed(&mut o[..]).unwrap(); o.to_vec() } });
+        v.push(Encoder { name: "Element::serialize_compressed (16-byte buffer must fail, then full)", f: |e| {
+            // a destination that is too short must be an error, never a silent truncation
+            let mut small = [0u8; 16];
+            let r = e.serialize_compressed(&mut small[..]);
+            if r.is_ok() {
+                return b"serialising 32 bytes into a 16-byte buffer returned Ok".to_vec();
+            }
+            let mut o = Vec::new();
+            e.serialize_compressed(&mut o).unwrap();
+            o
+        } });
         v.push(Encoder { name: "Debug for Element (hex)", f: |e| unhex(&format!("{e:?}"), "decaf377::Element(") });
         v.push(Encoder { name: "Display for Element (hex)", f: |e| unhex(&format!("{e}"), "decaf377::Element(") });
         v.push(Encoder { name: "Debug for AffinePoint (hex)", f: |e| unhex(&format!("{:?}", e.into_affine()), "decaf377::AffinePoint(") });
